@@ -32,6 +32,7 @@ func checkC19(r *Report, p *Program) {
 	// every step of the transport has its error looked at, the right way round (shared with C12)
 	etagEnabledTable(r, p, "R19.8")
 	foundValuesGuarded(r, p, "R19.9")
+	responseTypesDecodePlainly(r, p, "R19.10")
 	errorChecksMeanWhatTheySay(r, p, "R19.7", func(f *ssa.Function) bool { return strings.Contains(FK(f), "/pkg/hooks.") })
 }
 
